@@ -235,17 +235,38 @@ def check_builder_insert(ctx, case, stratum="builder-insert"):
     host = Dfg(*tb.row(tys_))
     ins = host.inputs()
     hc = case.get("host")
+    allowed_extra = Counter()
     if hc:
         # the receiving HUGR has content of its own (nodes and links to be left undisturbed), and the receiving
         # builder may itself be a nested region of it
         ins = [host.add_op(ops.Noop(), w)[0] if hc["noops"][i % len(hc["noops"])] else w for i, w in enumerate(ins)]
         for _ in range(hc.get("extra", 0)):
             host.add_state_order(host.input_node, host.add_op(ops.Noop(), host.load(__import__("hugr").val.TRUE)))
-        if hc["nested"]:
+        if hc.get("wires") == "dom":
+            # the receiving builder is a basic block, the given wires live in ANOTHER block of the same CFG
+            # (dominator edges: linked as they are, no order edge)
+            from hugr.build import Cfg
+
+            ctx.feat("feature:insert-into-block-with-dominator-wires")
+            cfg = Cfg(*tb.row(tys_))
+            entry = cfg.add_entry()
+            ins = [entry.add_op(ops.Noop(), w)[0] if hc["noops"][i % len(hc["noops"])] else w
+                   for i, w in enumerate(entry.inputs())]
+            entry.set_single_succ_outputs()
+            host = cfg.add_successor(entry[0])
+        elif hc["nested"]:
             ctx.feat("feature:insert-into-nested-builder")
             outer = host
-            host = outer.add_nested(*ins)
-            ins = host.inputs()
+            if hc.get("wires") == "ext":
+                # the given wires come from the ENCLOSING region (non-local edges: each brings one order edge from its
+                # source node to the receiving region's node, and nothing else)
+                ctx.feat("feature:insert-with-non-local-wires")
+                host = outer.add_nested()
+                ext_sources = {w.out_port().node.idx for w in ins}
+                allowed_extra = Counter({(sidx, -1, host.parent_node.idx, -1): 1 for sidx in ext_sources})
+            else:
+                host = outer.add_nested(*ins)
+                ins = host.inputs()
     sA, sB = snap(host.hugr), snap(b.hugr)
     if kind == "dfg":
         n = host.insert_nested(b, *ins)
@@ -290,8 +311,9 @@ def check_builder_insert(ctx, case, stratum="builder-insert"):
         bad("builder-insert-links", "links touching the inserted part", sorted((want - got).elements())[:5],
             sorted((got - want).elements())[:5])
     rest = Counter({k: c for k, c in sA2["links"].items() if k[0] not in img and k[2] not in img})
-    if rest != sA["links"]:
-        bad("builder-insert-old-links", "links of the host", "unchanged", "changed")
+    if rest != sA["links"] + allowed_extra and rest != sA["links"] | allowed_extra:
+        bad("builder-insert-old-links", "links of the host", "unchanged (plus one order edge per non-local source)",
+            [sorted((rest - sA["links"]).elements())[:4], sorted((sA["links"] - rest).elements())[:4]])
     return len(sB["nodes"]) >= 4
 
 
@@ -351,7 +373,7 @@ def run(ctx):
         if p["kind"] != kind:
             continue
         case = {"prog": p, "host": {"nested": r.random() < 0.5, "noops": [r.random() < 0.5 for _ in range(3)],
-                                    "extra": r.randint(0, 2)}}
+                                    "extra": r.randint(0, 2), "wires": r.choice(["local", "local", "dom", "ext"])}}
         nt = ctx.guard("builder-insert", case, check_builder_insert, ctx, case)
         ctx.case("builder-insert", case, bool(nt))
 
